@@ -14,7 +14,7 @@
 //
 // SPDX-License-Identifier: Apache-2.0
 
-use super::Mutator;
+use super::{should_mutate, Mutator};
 use crate::generator::{EntropySource, GenerationSource};
 
 /// Applies bit flips to integer arguments.
@@ -27,7 +27,7 @@ impl Mutator for BitFlipMutator {
     }
 
     fn mutate_int(&self, value: i32, source: &mut GenerationSource, rate: f64) -> Option<i32> {
-        if source.gen_f64() > rate {
+        if !should_mutate(source, rate) {
             return None;
         }
         let bit_pos = source.gen_range(0, 32);
@@ -35,7 +35,7 @@ impl Mutator for BitFlipMutator {
     }
 
     fn mutate_long(&self, value: i64, source: &mut GenerationSource, rate: f64) -> Option<i64> {
-        if source.gen_f64() > rate {
+        if !should_mutate(source, rate) {
             return None;
         }
         let bit_pos = source.gen_range(0, 64);
